@@ -31,7 +31,8 @@ from nauyaca.server.tls_protocol import TLSServerProtocol  # noqa: E402
 class LiveServer:
     """A server assembled exactly like start_server does for the chosen backend, with an arbitrary handler."""
 
-    def __init__(self, backend, handler, cert, upload=None):
+    def __init__(self, backend, handler, cert, upload=None, ctx=None):
+        self.ctx_override = ctx          # a TLS context built by the caller (for the chosen backend) instead of the usual one
         self.backend = backend
         self.handler = handler
         self.cert = cert
@@ -49,11 +50,11 @@ class LiveServer:
 
         async def start():
             if self.backend == "pyopenssl":
-                ctx = create_pyopenssl_server_context(self.cert.certfile, self.cert.keyfile, request_client_cert=True)
+                ctx = self.ctx_override or create_pyopenssl_server_context(self.cert.certfile, self.cert.keyfile, request_client_cert=True)
                 self.server = await self.loop.create_server(
                     lambda: TLSServerProtocol(lambda: GeminiServerProtocol(self.handler, None, self.upload), ctx), "127.0.0.1", 0)
             else:
-                ctx = create_server_context(self.cert.certfile, self.cert.keyfile, request_client_cert=False)
+                ctx = self.ctx_override or create_server_context(self.cert.certfile, self.cert.keyfile, request_client_cert=False)
                 self.server = await self.loop.create_server(lambda: GeminiServerProtocol(self.handler, None, self.upload),
                                                             "127.0.0.1", 0, ssl=ctx)
             self.port = self.server.sockets[0].getsockname()[1]
